@@ -107,9 +107,8 @@ class C01ValidOutput(Checker):
 
     def after(self, w, op, ev):
         if op['op'] == 'WRITE' and ev['r'] == 'ok':
-            from .simfs import MOUNT
             node = w.docs.get(op['doc'])
-            data = w.fs.files.get(MOUNT + op['path'])
+            data = w.fs.files.get(w.fs.mount + op['path'])
             if node is None or not node.xsd_check or data is None:
                 return
             try:
@@ -974,8 +973,7 @@ class C17Write(Checker):
         root = w.docs.get(op['doc'])
         if root is None:
             return
-        from .simfs import MOUNT
-        path = MOUNT + op['path']
+        path = w.fs.mount + op['path']
         ic = bool(op.get('ic'))
         ts = infork(lambda: w._quiet(lambda: w.verdict(root.el, ic)))
         self.pre = (path, w.fs.state(path), ts, w.fs.default_encoding, w.async_exc_at)
@@ -1124,8 +1122,7 @@ class C09Parse(Checker):
     def after(self, w, op, ev):
         if op['op'] != 'PARSE' or ev['r'] == 'skip':
             return
-        from .simfs import MOUNT
-        data = w.fs.files.get(MOUNT + op['path'])
+        data = w.fs.files.get(w.fs.mount + op['path'])
         if data is None:
             return
         try:
